@@ -390,6 +390,7 @@ type caseResult struct {
 	detail      string
 	nontrivial  bool
 	interrupted bool
+	unstable    bool // value not reproducible run to run (contains an address): not compared
 }
 
 func leaf(n *Node) bool { return n.Op == "id" || n.Op == "num" || n.Op == "str" }
@@ -404,6 +405,9 @@ func level(op string) int {
 // mismatchClass names the operator neighbourhood at the first (top-most,
 // left-most) place where the parsed tree leaves the dictated one.
 func mismatchClass(exp, got *Node) string {
+	if strings.HasPrefix(got.Op, "other:") {
+		return "foreign-node/" + exp.Op + "~" + strings.TrimPrefix(got.Op, "other:")
+	}
 	if exp.Op != got.Op {
 		return "root/" + exp.Op + "~" + got.Op
 	}
@@ -423,6 +427,12 @@ func mismatchClass(exp, got *Node) string {
 		}
 		if leaf(ek) && leaf(gk) {
 			return "operands/" + exp.Op
+		}
+		if exp.info().Kind == kPostfix && i > 0 {
+			return "operands/" + exp.Op // a bracketed argument holds the wrong expression
+		}
+		if strings.HasPrefix(gk.Op, "other:") {
+			return "foreign-node/" + exp.Op + "-" + ek.Op + "~" + strings.TrimPrefix(gk.Op, "other:")
 		}
 		c := ek.Op
 		if leaf(ek) {
@@ -493,6 +503,12 @@ func evalCase(t *Node, names []string, cx *ctxDef) (r caseResult) {
 		return
 	}
 	if vMin != vFull {
+		// guard against address-dependent values: each spelling must reproduce
+		// its own value in a second fresh environment before it is compared
+		if execCanon(stMin, names) != vMin || execCanon(stFull, names) != vFull {
+			r.unstable = true
+			return
+		}
 		r.class = "value"
 		r.detail = fmt.Sprintf("%q evaluates to [%s] but %q to [%s]", srcMin, vMin, srcFull, vFull)
 		return
@@ -579,7 +595,22 @@ func candidates(root *Node) []*Node {
 	return ok
 }
 
-func minimise(t *Node, cx *ctxDef, base string) (*Node, *ctxDef, caseResult) {
+// family groups the classes a failing case may move between while it is
+// being minimised: all "the parsed tree is not the dictated one" classes are
+// one family (the class of the minimal case is the one reported).
+func family(class string) string {
+	for _, p := range []string{"assoc/", "prec/", "operands/", "root/", "foreign-node/", "arity/"} {
+		if strings.HasPrefix(class, p) {
+			return "tree"
+		}
+	}
+	if strings.HasPrefix(class, "explicit/") {
+		return "explicit"
+	}
+	return class
+}
+
+func minimise(t *Node, cx *ctxDef, fam string) (*Node, *ctxDef, caseResult) {
 	cur := t.clone()
 	names := nameLeaves(cur)
 	res := evalCase(cur, names, cx)
@@ -588,7 +619,7 @@ func minimise(t *Node, cx *ctxDef, base string) (*Node, *ctxDef, caseResult) {
 		for _, c := range candidates(cur) {
 			cn := nameLeaves(c)
 			r := evalCase(c, cn, cx)
-			if !r.skipped && r.class == base {
+			if !r.skipped && r.class != "" && family(r.class) == fam {
 				cur, res, changed = c, r, true
 				break
 			}
@@ -600,9 +631,9 @@ func minimise(t *Node, cx *ctxDef, base string) (*Node, *ctxDef, caseResult) {
 	if cx.ID != "E" {
 		e := ctxByID("E")
 		r := evalCase(cur, nameLeaves(cur), e)
-		if r.class == base {
+		if r.class != "" && family(r.class) == fam {
 			// re-minimise in the plain position
-			return minimise(cur, e, base)
+			return minimise(cur, e, fam)
 		}
 	}
 	nameLeaves(cur)
@@ -613,9 +644,6 @@ func finalClass(base string, t *Node, cx *ctxDef) string {
 	cl := base
 	if base == "value" || strings.HasPrefix(base, "reject/") || base == "parser-panic" || strings.HasPrefix(base, "shape/") {
 		cl = base + "/" + t.sig()
-	}
-	if strings.HasPrefix(base, "assoc/in-in") {
-		cl = base
 	}
 	if cx.ID != "E" {
 		cl += "@" + cx.ID
@@ -698,7 +726,7 @@ func plans(thorough bool) []plan {
 }
 
 type counters struct {
-	trees, evals, nontrivial, skippedIn, interrupted, failing int64
+	trees, evals, nontrivial, skippedIn, interrupted, unstable, failing int64
 }
 
 func run(c *common.Ctx) *common.Result {
@@ -785,6 +813,9 @@ func run(c *common.Ctx) *common.Result {
 						if r.interrupted {
 							cn.interrupted++
 						}
+						if r.unstable {
+							cn.unstable++
+						}
 						if r.nontrivial {
 							if seen.add(cx.ID + "\x00" + render(root, false, cx.Colon)) {
 								cn.nontrivial++
@@ -796,9 +827,9 @@ func run(c *common.Ctx) *common.Result {
 						}
 						if r.class != "" {
 							cn.failing++
-							mt, mcx, mr := minimise(root, cx, r.class)
+							mt, mcx, mr := minimise(root, cx, family(r.class))
 							report(common.Violation{
-								Class:  finalClass(r.class, mt, mcx),
+								Class:  finalClass(mr.class, mt, mcx),
 								Case:   mcx.Pre + render(mt, false, mcx.Colon) + mcx.Post,
 								Detail: mr.detail,
 								Replay: treeReplay{Kind: "tree", Ctx: mcx.ID, Tree: mt},
@@ -814,6 +845,7 @@ func run(c *common.Ctx) *common.Result {
 			res.Add("nontrivial", cn.nontrivial)
 			res.Add("skipped_for_in_head", cn.skippedIn)
 			res.Add("fuel_exhausted", cn.interrupted)
+			res.Add("address_dependent_values_not_compared", cn.unstable)
 			res.Add("failing_cases_before_minimisation", cn.failing)
 			res.Max("depth", maxDepth)
 			res.Max("operator_nodes", maxNodes)
@@ -827,6 +859,8 @@ func run(c *common.Ctx) *common.Result {
 	res.Add("distinct_nontrivial_measured", seen.size())
 	return res
 }
+
+var litSamples int64
 
 func runLiterals(c *common.Ctx, res *common.Result, seen *hashSet, report func(common.Violation)) {
 	maxStr := 3
@@ -864,7 +898,7 @@ func runLiterals(c *common.Ctx, res *common.Result, seen *hashSet, report func(c
 		res.Add("evaluations", evals)
 		res.Add("evaluations:literals", evals)
 		res.Add("nontrivial", nontriv)
-		if i%997 == 3 {
+		if i%4001 == 3 && atomic.AddInt64(&litSamples, 1) <= 4 {
 			res.Sample(map[string]interface{}{"space": "literals", "spelling": lc.Src, "form": lc.Form, "denotes": wantText(lc)})
 		}
 	})
@@ -874,7 +908,7 @@ func coverage(c *common.Ctx, r *common.Result) map[string]interface{} {
 	cov := map[string]interface{}{
 		"evaluations":         r.Counts["evaluations"],
 		"distinct_nontrivial": r.Counts["distinct_nontrivial_measured"],
-		"rule": "a case is (abstract tree, statement position) or (literal spelling, position); it is counted as non-trivial when both spellings parsed, both parsed trees were converted and found equal to the abstract tree, and (in executing positions) both executions ended before the fuel ran out with equal value/error status — for literals: the spelling was parsed and its value compared with strconv's (or it had to be rejected and was); distinctness is measured with a hash set over position+minimal spelling",
+		"rule":                "a case is (abstract tree, statement position) or (literal spelling, position); it is counted as non-trivial when both spellings parsed, both parsed trees were converted and found equal to the abstract tree, and (in executing positions) both executions ended before the fuel ran out with equal value/error status — for literals: the spelling was parsed and its value compared with strconv's (or it had to be rejected and was); distinctness is measured with a hash set over position+minimal spelling",
 		"trees":               r.Counts["trees"],
 		"max_depth":           r.GetMax("depth"),
 		"max_operator_nodes":  r.GetMax("operator_nodes"),
